@@ -131,7 +131,11 @@ func (a *vpRecApp) Commit() abci.ResponseCommit {
 	a.executed[a.height]++
 	a.journal = append(a.journal, fmt.Sprintf("commit %d", a.height))
 	a.inBlock, a.ended, a.txs = 0, false, nil
-	return abci.ResponseCommit{Data: a.hash}
+	resp := abci.ResponseCommit{Data: a.hash}
+	if a.w.withPrune && a.height >= 2 {
+		resp.RetainHeight = a.height // everything below the block just committed may go
+	}
+	return resp
 }
 
 // ---------------------------------------------------------------- the node around it
@@ -146,6 +150,7 @@ type vpC05World struct {
 	app         *vpRecApp
 	chain       map[int64]*types.Block // the decided block of each height
 	withUpdates bool
+	withPrune   bool
 	boots       int
 }
 
@@ -185,6 +190,16 @@ func (w *vpC05World) boot() *State {
 	vp.Assert(state.LastBlockHeight == blockStore.Height(), "C05.recover.state-and-block-store-agree-on-height")
 	vp.Assert(state.LastBlockHeight == w.app.height, "C05.recover.state-and-application-agree-on-height")
 	vp.Assert(bytes.Equal(state.AppHash, w.app.hash) || (w.app.height == 0 && len(w.app.hash) == 0), "C05.recover.state-and-application-agree-on-the-app-hash")
+	// C18: whatever the block store still holds, the state store can serve
+	if base := blockStore.Base(); base > 0 {
+		for h := base; h <= blockStore.Height(); h++ {
+			vp.Assert(blockStore.LoadBlockMeta(h) != nil, "C18.recover.every-height-between-base-and-height-has-its-block")
+			_, verr := stateStore.LoadValidators(h)
+			vp.Assert(verr == nil, "C18.recover.state-store-has-the-validator-set-of-every-stored-block")
+			_, perr := stateStore.LoadConsensusParams(h)
+			vp.Assert(perr == nil, "C18.recover.state-store-has-the-parameters-of-every-stored-block")
+		}
+	}
 	blockExec := sm.NewBlockExecutor(stateStore, log.NewNopLogger(), proxyApp.Consensus(), emptyMempool{}, sm.EmptyEvidencePool{})
 	cs := NewState(cfg.DefaultConsensusConfig(), state, blockExec, blockStore, emptyMempool{}, sm.EmptyEvidencePool{})
 	cs.timeoutTicker = &vpTicker{w: &vpWorld{}}
@@ -232,8 +247,13 @@ func (w *vpC05World) commitNext(cs *State) {
 // any database write or application call (including during recovery); after each crash the node boots
 // again (real Handshaker), must find state, block store and application in agreement, and goes on.
 func vpC05Pipeline(n int64, crashes int, withUpdates bool) {
+	vpC05PipelineOpt(n, crashes, withUpdates, false)
+}
+
+func vpC05PipelineOpt(n int64, crashes int, withUpdates bool, withPrune bool) {
 	vp.Stub("(*github.com/tendermint/tendermint/libs/pubsub.Server).PublishWithEvents", func() error { return nil })
 	w := vpNewC05World(withUpdates)
+	w.withPrune = withPrune
 	vp.CrashPoints(crashes)
 	var cs *State
 	for w.app.height < n {
@@ -264,6 +284,10 @@ func vpC05Pipeline(n int64, crashes int, withUpdates bool) {
 	vp.Assert(w.app.initChains <= 1+crashes, "C05.app.init-chain-repeats-only-after-a-crash-before-the-first-commit")
 	vp.Reach("chain-committed")
 }
+
+// the application asks for pruning (retain height = the height just committed) from height 2 on
+func VP_C05_Pipeline_n4_prune()        { vpC05PipelineOpt(4, 0, true, true) }
+func VP_C05_Pipeline_n4_prune_crash1() { vpC05PipelineOpt(4, 1, true, true) }
 
 func VP_C05_Pipeline_n3()        { vpC05Pipeline(3, 0, false) }
 func VP_C05_Pipeline_n2_crash1() { vpC05Pipeline(2, 1, false) }
